@@ -327,7 +327,11 @@ def setup_project(tools, spec, root):
     open(os.path.join(src, 'feed.txt'), 'w').write('feed\n')
     open(os.path.join(src, 'gin.txt'), 'w').write('gin\n')
     env = {'CC': tools.ccwrap, 'PATH': tools.base_env()['PATH']}
-    if spec.get('rsp'):
+    if spec.get('rsp') == 'mixed':
+        # only the long command lines of the project go through a response file, so the same
+        # rule is used by plain statements and by response-file statements
+        env['MESON_RSP_THRESHOLD'] = '1500'
+    elif spec.get('rsp'):
         env['MESON_RSP_THRESHOLD'] = '0'
     r = meson_cli(['setup', os.path.join(src, 'b')], cwd=src, env=env, timeout=600)
     return src, r
@@ -750,6 +754,16 @@ def stream(ctx, tools, thorough, found):
                       'global_args': ['-DGL=g l\\o'], 'project_args': ['-DPR=p$r', '-mpr=x y'], 'project_link_args': ['-Wxpl,a b'],
                       'items': [{'kind': 'exe', 'id': 9100, 'baseline': True, 'c_args': [], 'link_args': []},
                                 {'kind': 'exe', 'id': 9101, 'c_args': cargs, 'link_args': ['-Wx1,--defsym=a b=1', 'obj$x', "-Wx2,'q'", '-Wx3,a\\b']}]})
+    # mixed mode: one short and one padded (long) target share backslash-carrying project/global
+    # arguments; written in both orders
+    pad_c = ['-DPAD%d=pppppppppppppppppppp' % k for k in range(70)]
+    pad_l = ['-Wxpad%d,qqqqqqqqqqqqqqqqqq' % k for k in range(70)]
+    for order in (0, 1):
+        short = {'kind': 'exe', 'id': 9110 + order, 'c_args': ['-DS=s\\t'], 'link_args': ['-Wxs,s\\t']}
+        long_ = {'kind': 'exe', 'id': 9120 + order, 'c_args': ['-DS=s\\t'] + pad_c, 'link_args': ['-Wxs,s\\t'] + pad_l}
+        specs.append({'lang_c': True, 'rsp': 'mixed', 'label': 'corpus-c-mixed',
+                      'global_args': ['-DGL=g l\\o'], 'project_args': ['-DPR=p\\r', '-mpr=x\\y'], 'project_link_args': ['-Wxpl,a\\b'],
+                      'items': [short, long_] if order == 0 else [long_, short]})
     # the defect classes, one item per project so that each is attributed exactly
     probes = [
         {'kind': 'custom_target', 'id': 9201, 'args': ['x'], 'env': {'MV_A': 'l1\nl2'}},
@@ -776,7 +790,12 @@ def stream(ctx, tools, thorough, found):
         while len(items) < 6:
             items += [x for x in gen_items(rng, CK.gen_arg, 3, nextid, True) if x['kind'] == 'exe']
         pa = lambda tag: [re.sub(r'\.(a|lib|dll|dylib|so(\.[0-9]+)*)$', '_', tag + CK.gen_arg(rng, False)) for _ in range(rng.randint(0, 2))]
-        specs.append({'lang_c': True, 'rsp': (q % 2 == 1), 'label': 'random-c', 'items': items,
+        mode = [False, True, 'mixed'][q % 3]
+        if mode == 'mixed':
+            for it in items[1::2]:
+                it['c_args'] = it['c_args'] + pad_c
+                it['link_args'] = it['link_args'] + pad_l
+        specs.append({'lang_c': True, 'rsp': mode, 'label': 'random-c', 'items': items,
                       'global_args': [('-DGL%d=' % k) + a for k, a in enumerate(pa(''))],
                       'project_args': [('-mpr%d=' % k) + a for k, a in enumerate(pa(''))],
                       'project_link_args': [('-Wxpl%d,' % k) + a for k, a in enumerate(pa(''))]})
